@@ -351,10 +351,32 @@ const (
 	kParseGroups
 	nKinds
 	// not drawn at random: placed into every fifth batch (see novelSources)
-	kRunNovel = nKinds
+	kRunNovel     = nKinds
+	kCompileNovel = nKinds + 1
 )
 
-var kindNames = []string{"compile-groups", "compile-plain", "run-shared", "run-private", "parse-groups", "run-novel"}
+// novelSpelling: `find all at least 1 digit whitespace 'kg<n>' or (maybe upper) = c` with the letters of its keywords
+// upper-cased according to the bits of n — a spelling no earlier compile of this process has seen
+func novelSpelling(n int) string {
+	words := []string{"find", "all", "at", "least", "1", "digit", "whitespace", fmt.Sprintf("'kg%d'", n), "or", "(", "maybe", "upper", ")", "=", "c"}
+	bit := uint(n)*2654435761 + 12345
+	for i, w := range words {
+		if w[0] == '\'' {
+			continue
+		}
+		b := []byte(w)
+		for j := range b {
+			bit = bit*1103515245 + 12345
+			if b[j] >= 'a' && b[j] <= 'z' && (bit>>16)&1 == 1 {
+				b[j] -= 32
+			}
+		}
+		words[i] = string(b)
+	}
+	return strings.Join(words, " ")
+}
+
+var kindNames = []string{"compile-groups", "compile-plain", "run-shared", "run-private", "parse-groups", "run-novel", "compile-novel"}
 
 type task struct {
 	kind int
@@ -527,6 +549,13 @@ func main() {
 						novelSrc = novelSources[r.Intn(len(novelSources))]
 						novelV, _ = compileDump(novelSrc)
 					}
+					if novelCount%2 == 0 {
+						// a SOURCE the process has never compiled: the keywords in a letter case drawn from the counter
+						// (whatever a first sighting of a spelling does to process-wide tables then happens concurrently)
+						tasks[g] = task{kind: kCompileNovel, prog: &program{Src: novelSpelling(novelCount)}}
+						mix = append(mix, kindNames[kCompileNovel])
+						continue
+					}
 					if novelV != nil {
 						tasks[g] = task{kind: kRunNovel, prog: &program{Src: novelSrc}, priv: novelV,
 							novelText: strings.Repeat("a", 257+2*novelCount) + " b"}
@@ -587,6 +616,12 @@ func main() {
 							got, want, text = runDump(t.priv, texts[t.text]), t.prog.Runs[t.text], texts[t.text]
 						case kRunPrivate:
 							got, want, text = runDump(t.priv, texts[t.text]), t.prog.Runs[t.text], texts[t.text]
+						case kCompileNovel:
+							if it == 0 {
+								_, d := compileDump(t.prog.Src)
+								tasks[g].novelGot = append(tasks[g].novelGot, d)
+							}
+							continue
 						case kRunNovel:
 							if it == 0 {
 								tasks[g].novelGot = append(tasks[g].novelGot, runDump(t.priv, t.novelText))
@@ -616,12 +651,14 @@ func main() {
 			runtime.GOMAXPROCS(1)
 			novelWant := map[string]string{}
 			for g, t := range tasks {
-				if t.kind != kRunNovel || stop {
+				if (t.kind != kRunNovel && t.kind != kCompileNovel) || stop {
 					continue
 				}
 				want, have := novelWant[t.prog.Src+"\x00"+t.novelText]
 				if !have {
-					if v, _ := compileDump(t.prog.Src); v != nil {
+					if v, d := compileDump(t.prog.Src); t.kind == kCompileNovel {
+						want = d
+					} else if v != nil {
 						want = runDump(v, t.novelText)
 					}
 					novelWant[t.prog.Src+"\x00"+t.novelText] = want
@@ -638,7 +675,7 @@ func main() {
 			for _, t := range tasks {
 				rep.Ops += *iters
 				rep.OpsByKind[kindNames[t.kind]] += *iters
-				if t.kind == kRunNovel {
+				if t.kind == kRunNovel || t.kind == kCompileNovel {
 					distinct[kindNames[t.kind]+"\x00"+t.prog.Src+"\x00"+t.novelText] = true
 					continue
 				}
